@@ -293,12 +293,31 @@ def install(vm):
         th_init(vm, s, [inst] + list(args), kw)
         return inst
 
+    def lift_self(fn):
+        """thread methods called on a merged receiver: handle each alternative in its own worlds"""
+        def m(vm, s, args, kw):
+            if type(args[0]) is Union:
+                from .vm import _Pending, JUMPED, Park
+
+                def k(s2, alt):
+                    r = fn(vm, s2, [alt] + list(args[1:]), kw)
+                    if isinstance(r, _Pending):
+                        return r.value
+                    vm.deliver(s2, r, ("push",))
+                    return JUMPED
+                recv = vm.project(s, args[0], True)
+                if type(recv) is Union:
+                    return _Pending(vm.fork_union(s, recv, k))
+                return fn(vm, s, [recv] + list(args[1:]), kw)
+            return fn(vm, s, args, kw)
+        return m
+
     reg(T, th_new)
     reg(T.__init__, th_init)
-    reg(T.start, th_start)
-    reg(T.is_alive, th_is_alive)
-    reg(T.join, th_join)
-    reg(T.run, th_run)
+    reg(T.start, lift_self(th_start))
+    reg(T.is_alive, lift_self(th_is_alive))
+    reg(T.join, lift_self(th_join))
+    reg(T.run, lift_self(th_run))
     reg(T.setDaemon, th_setdaemon)
     vm.threads_created = []
 
